@@ -255,7 +255,7 @@ func collisionSpec() fileSpec {
 // their proto names differ. The generator may reject them; if it accepts one, its output must compile.
 func clashSpecs() map[string]fileSpec {
 	req := []string{"Req"}
-	return map[string]fileSpec{
+	out := map[string]fileSpec{
 		"method-DRPCConn":                       {Pkg: "a", Msgs: req, Services: []svcSpec{{Name: "Svc", Methods: []methodSpec{{Name: "DRPCConn", In: "Req", Out: "Req"}, {Name: "Get", In: "Req", Out: "Req"}}}}},
 		"methods-get_item-GetItem":              {Pkg: "a", Msgs: req, Services: []svcSpec{{Name: "Svc", Methods: []methodSpec{{Name: "get_item", In: "Req", Out: "Req"}, {Name: "GetItem", SS: true, In: "Req", Out: "Req"}}}}},
 		"services-my_service-MyService":         {Pkg: "a", Msgs: req, Services: []svcSpec{{Name: "my_service", Methods: []methodSpec{{Name: "Get", In: "Req", Out: "Req"}}}, {Name: "MyService", Methods: []methodSpec{{Name: "Put", In: "Req", Out: "Req"}}}}},
@@ -263,6 +263,17 @@ func clashSpecs() map[string]fileSpec {
 		"service-Foo-vs-service-FooDescription": {Pkg: "a", Msgs: req, Services: []svcSpec{{Name: "Foo", Methods: []methodSpec{{Name: "Get", In: "Req", Out: "Req"}}}, {Name: "FooDescription", Methods: []methodSpec{{Name: "Put", In: "Req", Out: "Req"}}}}},
 		"service-named-like-a-message":          {Pkg: "a", Msgs: []string{"Req", "DRPCFooClient"}, Services: []svcSpec{{Name: "Foo", Methods: []methodSpec{{Name: "Get", In: "Req", Out: "DRPCFooClient"}}}}},
 	}
+	// a message named like one of the exported types the generator declares for a service or for a method of
+	// each of the four shapes
+	shapes := map[string]methodSpec{"unary": {Name: "Bar"}, "server-stream": {Name: "Bar", SS: true}, "client-stream": {Name: "Bar", CS: true}, "bidi": {Name: "Bar", CS: true, SS: true}}
+	for shape, m := range shapes {
+		for _, ident := range []string{"DRPCFoo_BarStream", "DRPCFoo_BarClient", "DRPCFooServer", "DRPCFooUnimplementedServer", "DRPCFooDescription"} {
+			m := m
+			m.In, m.Out = "Req", "Req"
+			out[fmt.Sprintf("message-%s-beside-a-%s-method", ident, shape)] = fileSpec{Pkg: "a", JSON: shape == "bidi", Msgs: []string{"Req", ident}, Services: []svcSpec{{Name: "Foo", Methods: []methodSpec{m}}}}
+		}
+	}
+	return out
 }
 
 // shiftSpecs are descriptors in which "<service>_<method>" reads the same for two different
